@@ -26,7 +26,9 @@ RULE = (
     "Sugar-protocol peer through the five backend names; D native in-process deduction) and 1-3 solve() calls (up to 5 in "
     "the thorough ramp) with ensure / add_answer_key / find_answer / sol scribbles in between; non-trivial = some solve() "
     "with >=1 answer key whose reference model set is neither empty nor the whole domain; distinct = distinct event-log "
-    "SHA-256"
+    "SHA-256"    "; 4% of the runs are programs of 12-30 variables solved through real z3 and judged by a sound but incomplete oracle built "
+    "from known models (hidden witness and those of its neighbours that satisfy every constraint): True must be returned, a key on "
+    "which two known models disagree must be None, a reported value must be the witness's value"
 )
 STATE_MEASURE = "distinct (declarations, key set, model set) triples at solve() time"
 COMPONENTS = {
@@ -42,7 +44,32 @@ ASSUMPTIONS = [
 SUGAR_NAMES = ["sugar", "sugar_extended", "csugar", "enigma_csp", "cspuz_core"]
 
 
+def generate_big(rng, tier):
+    """Programs too large to enumerate (12-30 variables), solved through real z3.  Known models =
+    the hidden witness plus those of its neighbours / random assignments that satisfy every
+    constraint.  Sound, incomplete oracle: solve() must return True; a key on which two known models
+    disagree must be None; a reported value must be the witness's value (with its type)."""
+    from sim import c01_session
+
+    big = c01_session.generate_big(rng, tier)
+    decls, cs = big["decls"], big["cs"]
+    pred = refsem.compile_pred(cs)
+    known = [list(p) for p in big["pins"] if pred(tuple(p))]
+    w = big["pins"][0]
+    for _ in range(60):
+        p = list(w)
+        for _ in range(rng.randint(1, 3)):
+            i = rng.randrange(len(decls))
+            p[i] = (not p[i]) if decls[i]["t"] == "b" else rng.randint(decls[i]["lo"], decls[i]["hi"])
+        if pred(tuple(p)) and p not in known:
+            known.append(p)
+    ids = [i for i in range(len(decls)) if rng.random() < rng.choice([0.4, 1.0])]
+    return {"prop": ID, "route": "B", "big": True, "decls": decls, "cs": cs, "known": known[:40], "keys": ids, "nest": rng.randint(0, 7), "form": rng.randint(0, 3)}
+
+
 def generate(rng, tier, index):
+    if rng.random() < 0.04:
+        return generate_big(rng, tier)
     route = rng.choices(["A", "B", "C", "D"], weights=[5, 3, 3, 1])[0]
     sc = {"prop": ID, "route": route}
     if route in ("A", "D"):
@@ -107,6 +134,16 @@ def generate(rng, tier, index):
 
 def valid(sc):
     try:
+        if sc.get("big"):
+            decls = sc["decls"]
+            return (
+                bool(sc["known"])
+                and all(len(k) == len(decls) for k in sc["known"])
+                and all(0 <= i < len(decls) for i in sc["keys"])
+                and len(set(sc["keys"])) == len(sc["keys"])
+                and all(refsem.valid(c, decls, "B") for c in sc["cs"])
+                and all(refsem.compile_pred(sc["cs"])(tuple(k)) for k in sc["known"])
+            )
         if sc["route"] not in ("A", "B", "C", "D"):
             return False
         if sc["route"] == "C" and sc["backend"] not in SUGAR_NAMES:
@@ -191,7 +228,62 @@ def check_solve(res, prop, tag, decls, constraints, keys, r, sols, n_op, models_
     return M
 
 
+def run_big(sc) -> RunResult:
+    cspuz = core.import_cspuz()
+    res = RunResult()
+    core.fresh_z3_context()
+    res.log("start", ID, sc.get("seed"), "big")
+    res.hit("scenario:big_program_known_models_oracle")
+    decls, cs, known, keys = sc["decls"], sc["cs"], sc["known"], sc["keys"]
+    tag = "route B z3 big"
+    z3cap = {}
+    with peers.counted_z3(z3cap), warnings.catch_warnings():
+        warnings.simplefilter("ignore")
+        try:
+            s = cspuz.Solver()
+            vs = [s.bool_var() if d["t"] == "b" else s.int_var(d["lo"], d["hi"]) for d in decls]
+            b = refsem.Builder(vs)
+            if cs:
+                s.ensure(*_nest([b.build(c) for c in cs], sc.get("nest", 0)))
+            if keys:
+                s.add_answer_key(*key_arg(vs, keys, sc.get("form", 0)))
+            z3cap["calls"] = 0
+            z3cap["cap"] = 8 + 3 * sum((2 if decls[i]["t"] == "b" else decls[i]["hi"] - decls[i]["lo"] + 1) for i in keys)
+            try:
+                r = s.solve(backend="z3")
+            except peers.NoReturnWithinBound as e:
+                res.violate("C02/no-return-within-bound", f"solve(): {e} [{tag}]")
+                return res
+            sols = [v.sol for v in vs]
+            res.steps += 1 + z3cap.get("calls", 0)
+            res.log("big", r, [sols[i] for i in keys], z3cap.get("calls"))
+            res.hit("backend_calls_per_solve:" + ("13+" if z3cap.get("calls", 0) > 12 else "<=12"))
+            if r is not True:
+                res.violate("C02/wrong-sat-verdict", f"solve returned {r!r} but {len(known)} models are known [{tag}]")
+                return res
+            w = known[0]
+            for k in keys:
+                got = sols[k]
+                if len({m[k] for m in known}) > 1:
+                    if got is not None:
+                        res.violate("C02/fact-reported-for-undetermined-key", f"key #{k} reported {got!r} but two known models disagree on it ({sorted({m[k] for m in known})[:4]}) [{tag}]")
+                        return res
+                    res.nontrivial = True
+                elif got is not None:
+                    if got != w[k]:
+                        res.violate("C02/wrong-fact-value", f"key #{k} reported {got!r} but a known model has {w[k]!r} [{tag}]")
+                        return res
+                    if type(got) is not type(w[k]):
+                        res.violate("C02/fact-wrong-type", f"key #{k} reported {got!r} ({type(got).__name__}), expected {type(w[k]).__name__} [{tag}]")
+                        return res
+        except Exception as e:
+            res.violate("C02/unexpected-exception", f"big program: {type(e).__name__}: {str(e)[:200]} [{tag}]")
+    return res
+
+
 def run(sc) -> RunResult:
+    if sc.get("big"):
+        return run_big(sc)
     cspuz = core.import_cspuz()
     from cspuz import expr as E
 
@@ -333,6 +425,18 @@ def _demotion_probes(res, keys):
 
 
 def shrink_candidates(sc):
+    if sc.get("big"):
+        for c2 in core.ddmin_list(sc["cs"]):
+            yield dict(sc, cs=c2)
+        for k2 in core.ddmin_list(sc["keys"]):
+            yield dict(sc, keys=k2)
+        for m2 in core.ddmin_list(sc["known"]):
+            if m2:
+                yield dict(sc, known=m2)
+        for j, c in enumerate(sc["cs"]):
+            for sm in refsem.shrink_ast(c, "B"):
+                yield dict(sc, cs=sc["cs"][:j] + [sm] + sc["cs"][j + 1 :])
+        return
     ops = sc["ops"]
     for cand in core.ddmin_list(ops):
         yield dict(sc, ops=cand)
